@@ -500,6 +500,18 @@ def quit_cases():
                 ["on k1 1 : kreg k1", "on k2 1 : kreg k2", "on k3 1 : quit"],
                 ["on k2 1 : quit ; kunreg k3 ; kreg k3"]]):
             cases.append((f"quit-{METHOD_NAME[m]}-task-round-{vi}", x + hs + ["do kreg k1 ; kreg k2 ; kreg k3 ; trel t9 50000000", "main", "main", "main"]))
+        # iv_quit() from an iv_event handler while other posted events of the same batch are undelivered (cross-thread posts at the wait,
+        # and posts made by the owner itself), iv_main re-entered, then more posts: every post is still followed by its handler
+        ev = ([f"exclude {m}"] if m else []) + ["cfg waitlimit=14 cblimit=80", "obj event e0", "obj event e1", "obj event e2", "obj timer t9", "obj timer t1",
+              "on t9 1 : ?evunreg e0 ; ?evunreg e1 ; ?evunreg e2"]
+        for vi, (hs, stim, later) in enumerate([
+                (["on e0 1 : quit", "on e1 1 : quit"], "xpost e0 ; xpost e1", "xpost e0"),
+                (["on e0 1 : quit", "on e1 1 : quit", "on e2 1 : quit"], "xpost e2 ; xpost e1 ; xpost e0", "xpost e1"),
+                (["on e0 1 : quit"], "xpost e0 ; xpost e1 ; xpost e2", "xpost e2"),
+                (["on e1 1 : quit ; evpost e2"], "xpost e0 ; xpost e1 ; xpost e2", "xpost e0"),
+                (["on t1 1 : evpost e0 ; evpost e1 ; evpost e2", "on e0 1 : quit", "on e1 1 : quit"], "nop", "xpost e2")]):
+            cases.append((f"quit-{METHOD_NAME[m]}-event-batch-{vi}", ev + hs + [f"at 0 : {stim}", "do evreg e0 ; evreg e1 ; evreg e2 ; trel t1 1000 ; trel t9 50000000",
+                                                                                  "main", "main", f"at 4 : {later}", "main", "main"]))
     return cases
 
 
@@ -526,6 +538,6 @@ def erronly_cases():
 
 
 ENUM_RULE = ("; plus the ENUMERATED families 'erronly' (24 scenarios: a descriptor whose only handler is the error handler, reached and left by every "
-             "transition, hang-up before/after, 4 methods) and 'quit' (56 scenarios: iv_quit outside iv_main; iv_quit from a descriptor handler while "
-             "other descriptors of the same iteration are undelivered, and from a task while later and deferred tasks of the round are pending, then "
+             "transition, hang-up before/after, 4 methods) and 'quit' (76 scenarios: iv_quit outside iv_main; iv_quit from a descriptor handler while "
+             "other descriptors of the same iteration are undelivered, from a task while later and deferred tasks of the round are pending, and from an iv_event handler while other posted events of the batch are undelivered, then "
              "iv_main re-entered: nothing due may be lost across the return; 4 methods)")
